@@ -3017,6 +3017,9 @@ iwrc jbl_patch(struct jbl *jbl, const struct jbl_patch *p, size_t cnt) {
   return rc;
 }
 
+// member and operation names are compared exactly: rfc6902 4 - members that are not defined for the operation are ignored
+#define _JBL_LIT_IS(lit_, ptr_, len_) (((len_) == (int) sizeof(lit_) - 1) && !memcmp((lit_), (ptr_), sizeof(lit_) - 1))
+
 static iwrc _jbl_create_patch(struct jbl_node *node, struct jbl_patch **pptr, int *cntp, struct iwpool *pool) {
   *pptr = 0;
   *cntp = 0;
@@ -3036,39 +3039,39 @@ static iwrc _jbl_create_patch(struct jbl_node *node, struct jbl_patch **pptr, in
   for (struct jbl_node *n = node->child; n; n = n->next, ++i) {
     struct jbl_patch *pp = p + i;
     for (struct jbl_node *n2 = n->child; n2; n2 = n2->next) {
-      if (!strncmp("op", n2->key, n2->klidx)) {
+      if (_JBL_LIT_IS("op", n2->key, n2->klidx)) {
         if (n2->type != JBV_STR) {
           return JBL_ERROR_PATCH_INVALID;
         }
-        if (!strncmp("add", n2->vptr, n2->vsize)) {
+        if (_JBL_LIT_IS("add", n2->vptr, n2->vsize)) {
           pp->op = JBP_ADD;
-        } else if (!strncmp("remove", n2->vptr, n2->vsize)) {
+        } else if (_JBL_LIT_IS("remove", n2->vptr, n2->vsize)) {
           pp->op = JBP_REMOVE;
-        } else if (!strncmp("replace", n2->vptr, n2->vsize)) {
+        } else if (_JBL_LIT_IS("replace", n2->vptr, n2->vsize)) {
           pp->op = JBP_REPLACE;
-        } else if (!strncmp("copy", n2->vptr, n2->vsize)) {
+        } else if (_JBL_LIT_IS("copy", n2->vptr, n2->vsize)) {
           pp->op = JBP_COPY;
-        } else if (!strncmp("move", n2->vptr, n2->vsize)) {
+        } else if (_JBL_LIT_IS("move", n2->vptr, n2->vsize)) {
           pp->op = JBP_MOVE;
-        } else if (!strncmp("test", n2->vptr, n2->vsize)) {
+        } else if (_JBL_LIT_IS("test", n2->vptr, n2->vsize)) {
           pp->op = JBP_TEST;
-        } else if (!strncmp("increment", n2->vptr, n2->vsize)) {
+        } else if (_JBL_LIT_IS("increment", n2->vptr, n2->vsize)) {
           pp->op = JBP_INCREMENT;
-        } else if (!strncmp("add_create", n2->vptr, n2->vsize)) {
+        } else if (_JBL_LIT_IS("add_create", n2->vptr, n2->vsize)) {
           pp->op = JBP_ADD_CREATE;
-        } else if (!strncmp("swap", n2->vptr, n2->vsize)) {
+        } else if (_JBL_LIT_IS("swap", n2->vptr, n2->vsize)) {
           pp->op = JBP_SWAP;
         } else {
           return JBL_ERROR_PATCH_INVALID_OP;
         }
-      } else if (!strncmp("value", n2->key, n2->klidx)) {
+      } else if (_JBL_LIT_IS("value", n2->key, n2->klidx)) {
         pp->vnode = n2;
-      } else if (!strncmp("path", n2->key, n2->klidx)) {
+      } else if (_JBL_LIT_IS("path", n2->key, n2->klidx)) {
         if (n2->type != JBV_STR) {
           return JBL_ERROR_PATCH_INVALID;
         }
         pp->path = n2->vptr;
-      } else if (!strncmp("from", n2->key, n2->klidx)) {
+      } else if (_JBL_LIT_IS("from", n2->key, n2->klidx)) {
         if (n2->type != JBV_STR) {
           return JBL_ERROR_PATCH_INVALID;
         }
